@@ -142,7 +142,7 @@ async def session(net, hyg, plan):
     au = [aioftp.User(u, pw, base_path=base_of(u), **extra, **({"maximum_connections": 1} if ucfg == "limit" and u in ("alice", "carol") else {}))
           for u, pw in users.items()]
     w = W.World(net, tree=None, users=SlowManager(au, plan["delay"], timeout=plan.get("manager_timeout"), logout_delay=plan.get("logout_delay"))
-                if (plan.get("delay") or plan.get("logout_delay")) else au)
+                if (plan.get("delay") or plan.get("logout_delay")) else au, **(plan.get("server_kwargs") or {}))
     await w.start()
     w.populate(make_tree(users))
     viol = []
@@ -370,6 +370,10 @@ def gen_cases(tier, seed):
         for pre in (["USER bob"], ["USER anonymous", "CWD /d"]):
             plans.append({"users": "A", "seed": seed, "pre": pre, "burst": ["USER " + acct, "PWD", "MKD /pwned", "MLST /whoami"], "delay": 0,
                           "logout_delay": 0.3, "manager_timeout": 0.05, "bdelay": 0, "any_refusal": True})
+            # ... and the server's own time-outs shorter than that notification takes
+            for skw in ({"socket_timeout": 0.1}, {"socket_timeout": 0.1, "idle_timeout": 5, "path_timeout": 0.1, "wait_future_timeout": 0.1}):
+                plans.append({"users": "A", "seed": seed, "pre": pre, "burst": ["USER " + acct, "PWD", "MKD /pwned", "MLST /whoami"], "delay": 0,
+                              "logout_delay": 0.3, "bdelay": 0, "any_refusal": True, "server_kwargs": skw})
     # re-USER and further commands written in one piece, user manager and/or back end that really suspend
     tails = [["PWD", "MKD /pwned", "MLST /whoami", "PASV"], ["CWD /d", "PWD"], ["EPSV", "RETR /whoami"], ["DELE /whoami", "RNFR /whoami"],
              ["STOR /up", "LIST /"], ["PASS wrong", "MLST /whoami", "MKD /x"], ["MLSD /d"], ["PWD"] * 6]
